@@ -192,6 +192,7 @@ def check_template(t, wrong_spec=False, wrong_raw=False):
     from amaranth.hdl import Signal, Module, Value, Shape
     name = T.tid(t)
     shapes, make_expr, direct = T.build(t)
+    pre = T.precondition(t)
     sigs = _signals(shapes)
     expr = Value.cast(make_expr(*sigs))
     rsh = expr.shape()
@@ -228,6 +229,8 @@ def check_template(t, wrong_spec=False, wrong_raw=False):
             raw = path.var(f"raw{k}", -(1 << w), (1 << w) - 1)
             raws.append(raw)
             vals.append(to_sint(norm(raw, w, s)))
+        if pre is not None:
+            path.assume(pre(*vals))
         for sig, raw in zip(sigs, raws):
             if sig in rstate.signals:
                 rstate.slot(sig).curr = raw
@@ -266,6 +269,8 @@ def check_template(t, wrong_spec=False, wrong_raw=False):
                     sl = state.slot(sig)
                     sl.curr = v
                     sl.next = v
+            if pre is not None:
+                path.assume(pre(*vals))
             lo, hi = shape_range(rw, rs)
             prev = path.var("out_prev", lo, hi)
             so = state.slot(out)
@@ -321,6 +326,7 @@ def find_failing_input_for_template(t):
     from amaranth.hdl import Signal, Module, Value
     from harness.realsim import comb_table, product_values
     shapes, make_expr, direct = T.build(t)
+    pre = T.precondition(t)
     for combo in itertools.product(*[_forms(sh) for sh in shapes]):
         operands = [c[1] for c in combo]
         inputs = [s for c in combo for s in c[2]]
@@ -336,6 +342,8 @@ def find_failing_input_for_template(t):
         for vals, (got,) in zip(assigns, rows):
             env = Env(zip(inputs, vals))
             opvals = [sem(o, env) for o in operands]
+            if pre is not None and not pre(*opvals):
+                continue
             want = direct(*opvals) if direct is not None else sem(expr, env)
             want = int(want)
             sh = expr.shape()
